@@ -1,0 +1,38 @@
+//go:build verif
+
+package sftp
+
+import (
+	"bytes"
+	"sync/atomic"
+
+	sshfx "github.com/pkg/sftp/internal/encoding/ssh/filexfer"
+)
+
+// VerifSetNextID sets the request-id counter of c: the next request carries v+1 (modulo 2^32).
+func VerifSetNextID(c *Client, v uint32) { atomic.StoreUint32(&c.nextid, v) }
+
+// VerifNextID returns the request-id counter of c (the id of the request issued last).
+func VerifNextID(c *Client) uint32 { return atomic.LoadUint32(&c.nextid) }
+
+// VerifReadPacketBBuf is VerifReadPacketB with a caller-supplied scratch buffer of the given capacity (0: nil).
+func VerifReadPacketBBuf(input []byte, maxLen uint32, bufCap int) (typ byte, payload []byte, errKind string, consumed int, panicked bool) {
+	defer func() {
+		if r := recover(); r != nil {
+			errKind, panicked = "panic", true
+		}
+	}()
+	var b []byte
+	if bufCap > 0 {
+		b = make([]byte, 0, bufCap)
+	}
+	cr := &verifCountReader{r: bytes.NewReader(input)}
+	var raw sshfx.RawPacket
+	err := raw.ReadFrom(cr, b, maxLen)
+	if err != nil {
+		return 0, nil, VerifErrKind(err), cr.n, false
+	}
+	id := raw.RequestID
+	pl := append([]byte{byte(id >> 24), byte(id >> 16), byte(id >> 8), byte(id)}, raw.Data.Bytes()...)
+	return byte(raw.PacketType), pl, "ok", cr.n, false
+}
